@@ -52,8 +52,10 @@ def prove_ticket_generator(src_root, ex: Explorer):
         ctx.assume(z3.And(idx0 >= 1, idx0 <= MAXT))
         yielded = []
 
+        carried = []
+
         def on_yield(it2, v, env):
-            yielded.append((v, env.lookup('idx')))
+            yielded.append((v, env.lookup(carried[0])))
             raise ReturnEx('<yield>')
         it.on_yield_value = on_yield
 
@@ -63,7 +65,14 @@ def prove_ticket_generator(src_root, ex: Explorer):
             if it2.truth(test) is not True:
                 ctx.fail('C18.tickets.generator.never-ends', 'the generator loop can terminate')
                 raise PathAbort()
-            env.vars['idx'] = Sym(idx0, 'int')
+            # the value the generator carries is identified by its role: the local (other than the parameter) that holds the initial
+            # ticket when the loop is first reached
+            init = env.vars.get('initial')
+            names = [k for k, v in env.vars.items() if k != 'initial' and isinstance(v, int) and not isinstance(v, bool) and v == init]
+            if len(names) != 1:
+                raise Unsupported(f'ticket_generator: cannot identify the carried ticket among {names}')
+            carried.append(names[0])
+            env.vars[names[0]] = Sym(idx0, 'int')
             it2.exec_block(node.body, env)
             ctx.fail('C18.tickets.generator.yields', 'an iteration of the generator does not yield')
             raise PathAbort()
@@ -133,7 +142,18 @@ def scan_request_writers(src_root, ex: Explorer, res):
             recv = ast.unparse(tg.value.value)
             # where does the key come from?  direct `ticket` local / attribute assigned from next(<gen>) in this function,
             # or `request.ticket` of a SearchRequest built by the callers of this function (manager-internal helper)
-            draws = [ast.unparse(c.args[0]) for c in ast.walk(node) if isinstance(c, ast.Call) and ast.unparse(c.func) == 'next' and c.args]
+            def draws_of(n_):
+                # direct draws next(<generator>) plus calls of a draw helper of the manager (a method that only returns next(self._ticket_generator))
+                d = [ast.unparse(c.args[0]) for c in ast.walk(n_) if isinstance(c, ast.Call) and ast.unparse(c.func) == 'next' and c.args]
+                d += ['self._ticket_generator' for c in ast.walk(n_) if isinstance(c, ast.Call) and isinstance(c.func, ast.Attribute)
+                      and isinstance(c.func.value, ast.Name) and c.func.value.id == 'self' and c.func.attr in helpers]
+                return d
+            helpers = set()
+            for m2, q2, n2 in src.functions():
+                if m2.name.endswith('search.manager') and q2.startswith('SearchManager.') and len(n2.body) <= 2 and isinstance(n2.body[-1], ast.Return) \
+                        and n2.body[-1].value is not None and ast.unparse(n2.body[-1].value) == 'next(self._ticket_generator)':
+                    helpers.add(q2.split('.')[-1])
+            draws = draws_of(node)
             if mname == 'search.manager' and qual.startswith('SearchManager.'):
                 if not draws:
                     # helper: its callers must draw from self._ticket_generator
@@ -142,8 +162,7 @@ def scan_request_writers(src_root, ex: Explorer, res):
                         if m2 is mod and q2.startswith('SearchManager.') and any(
                                 isinstance(c, ast.Call) and isinstance(c.func, ast.Attribute) and c.func.attr == qual.split('.')[-1]
                                 for c in ast.walk(n2)) and n2 is not node:
-                            callers.append((q2, [ast.unparse(c.args[0]) for c in ast.walk(n2)
-                                                 if isinstance(c, ast.Call) and ast.unparse(c.func) == 'next' and c.args]))
+                            callers.append((q2, draws_of(n2)))
                     ok = bool(callers) and all(d == ['self._ticket_generator'] for _, d in callers)
                     detail = f'callers {callers}'
                 else:
